@@ -295,6 +295,31 @@ pub fn run(args: &Args) -> Report {
         }
     }
 
+    // ---- aliasParams: aliases of the PLAIN primitives in path / query / header positions
+    {
+        let dts: Vec<DateTime<Utc>> = [(0i64, 0u32), (253402300799, 999_999_999), (-62167219200, 0), (1, 1000), (1_600_000_000, 123_000_000), (951782400, 500_000_000)].iter().map(|(s, n)| DateTime::from_timestamp(*s, *n).unwrap()).collect();
+        let u0 = Uuid::from_u128(0x0123_4567_89ab_cdef_fedc_ba98_7654_3210);
+        for (i, dt) in dts.iter().enumerate() {
+            for d in doubles() {
+                let dta = DtAlias(*dt);
+                let dbl = DblAlias(d);
+                let u = UuidAlias(if i % 2 == 0 { u0 } else { Uuid::from_u128(u128::MAX) });
+                let b = BoolAlias(i % 2 == 0);
+                let sl = if i % 3 == 0 { None } else { Some(SlAlias(SafeLong::new(-((1i64 << 53) - 1) + i as i64).unwrap())) };
+                let list: Vec<DtAliasAlias> = dts.iter().take(i).map(|x| DtAliasAlias(DtAlias(*x))).collect();
+                let rid_a = RidAlias(rids[i % rids.len()].clone());
+                let n = if i % 2 == 0 { Some(IntAlias(i32::MIN + i as i32)) } else { None };
+                let args = vec![rec(&dta), rec(&dbl), rec(&u), rec(&b), rec(&sl), rec(&list), rec(&rid_a), rec(&n)];
+                let ret = format!("r{}", i);
+                let ret2 = ret.clone();
+                run_case(&mut cx, "alias_params", "all", &format!("dt{}", i), args, rec(&ret), false,
+                    &|h| h.set_return(ret2.clone()),
+                    &|rig| ok(rig.client().alias_params(dta, dbl, u, b, sl, &list, &rid_a, n)),
+                    &|rig| ok(block_on(rig.async_client().alias_params(dta, dbl, u, b, sl, &list, &rid_a, n))));
+            }
+        }
+    }
+
     // ---- queryParams
     {
         #[derive(Clone)]
